@@ -108,6 +108,10 @@ def run_job(mc, drv, fmode=0, max_stims=None, seed=0, shard_size=None, keep=Fals
     """Returns the merged result dict of one job (cached)."""
     if stim_file:
         st = dict(path=stim_file, key=P.file_sha(stim_file), generated=0, distinct=0, n=sum(1 for _ in open(stim_file)), consts={})
+    elif 'Sim' in mc:
+        mc2 = dict(mc)
+        num, depth = mc2.pop('Sim')
+        st = P.gen_stimuli_sim(mc2, num, depth, seed)
     else:
         st = P.gen_stimuli(mc)
     d = P.build_driver(drv)
